@@ -193,12 +193,15 @@ func (f Flags) Argv() []string {
 // generators are biased towards small values, so IntRange(0,99) < p is not
 // a p% coin).
 func coin(t *rapid.T, label string, pct int) bool {
-	pool := make([]bool, 0, 20)
-	n := (pct*20 + 50) / 100
-	for i := 0; i < 20; i++ {
-		pool = append(pool, i < n)
+	// seven fair bits give a uniform number 0..127 (rapid's integer and SampledFrom generators favour small
+	// values, fair booleans do not); true for the top pct percent, so that shrinking moves towards false
+	n := 0
+	for i := 0; i < 7; i++ {
+		if rapid.Bool().Draw(t, label) {
+			n |= 1 << i
+		}
 	}
-	return rapid.SampledFrom(pool).Draw(t, label)
+	return n >= 128-(pct*128+50)/100
 }
 
 func opt[T any](t *rapid.T, label string, pct int, g *rapid.Generator[T]) *T {
